@@ -116,3 +116,33 @@ def register(R, tier="quick"):
                           "{None,1,2,3}; index level: 150 (thorough 3000) random vocabularies (4-14 words incl. multi-byte "
                           "letters, 1-3 segments) x 5 probes x maxdist 1..2 x prefix 0..3: terms_within, FuzzyTerm, suggest",
                     note="real code vs textbook OSA distance; see bounded/fuzzy_bounded.py")
+
+
+    def make_ix(prop):
+        def fn(tier_, seed):
+            key = ("ix", tier_, seed)
+            if key not in _cache:
+                _cache[key] = run_native("index_bounded.py", [240 if tier_ == "quick" else 6000, seed, 16])
+            out = dict(_cache[key])
+            fs = []
+            for f in out.get("failures", []):
+                p = f["case"].split("-")[0]
+                if p == prop or not p.startswith("C"):
+                    f = dict(f)
+                    f["snippet"] = ("import runpy, sys\nsys.argv = ['index_bounded.py', '--scenario', %r]\n"
+                                    "runpy.run_path(%r, run_name='__main__')\n"
+                                    % (json.dumps(f["corpus"]), os.path.join(ROOT, "bounded", "index_bounded.py")))
+                    fs.append(f)
+            out["failures"] = fs
+            return out
+        return fn
+    for prop in ("C02", "C03", "C04", "C06", "C07", "C08", "C10"):
+        R.bounded_check("index-bounded@" + prop, [prop], make_ix(prop),
+                        bound="random operation histories on a real directory index: 2-5 writers x 1-5 operations (add, update by "
+                              "unique key, delete by id / by word, grouped adds) ending in commit / optimize / no-merge commit / "
+                              "cancel / with-block (normal, ValueError, KeyboardInterrupt), compound or loose segments; after every "
+                              "step the full logical dump is compared with a Python model, searchers are held across 2 later "
+                              "generations and refreshed, a second writer is attempted, and for one step per history the commit is "
+                              "aborted at EVERY storage operation (create/rename/delete) in turn and the directory re-opened; "
+                              "quick 240 histories, thorough 6000",
+                        note="real index vs a document-level model; see bounded/index_bounded.py")
